@@ -108,7 +108,11 @@ func genC12(rng *rand.Rand, n int, emit func(Case), dist map[string]int) {
 			}
 			dist["instances_with_custom_error_handler"]++
 		}
+		ownCookie := rng.Intn(2) == 0
 		mw := middleware.CSRFWithConfig(csrfCfg)(func(c echo.Context) error {
+			if ownCookie {
+				c.SetCookie(&http.Cookie{Name: "session", Value: "s1", Path: "/"}) // the application's own cookie must not displace the token cookie
+			}
 			ran = true
 			ctxTok, _ = c.Get("csrf").(string)
 			return nil
